@@ -269,6 +269,7 @@ func runC09(t *testing.T, c *choice.Stream, r *Result, opt RunOpt) {
 			}
 		}
 		conn := e.W.NewConn(srv)
+		HangJudge(e, r, conn, srv, cf.ServerRev)
 		conn.Window = c.Pick("window", 0, 0, 32, 512)
 		var opNames []string
 		for _, op := range ops {
